@@ -159,6 +159,9 @@ func runC05(r *vrt.Run, c C05Case) (o c05Out) {
 		_ = covered
 	}
 	o.nontrivial = o.blocks >= 2 && (o.maxLive >= 2 || (f > 0 && o.maxLive >= 1))
+	if c.Cfg.BlockSize > 4<<20 && c.Cfg.Hint > 0 && len(data) > 4<<20 {
+		o.nontrivial = true // jobs inside a block: the reader has more jobs than blocks and knows it
+	}
 	if f > 0 {
 		// failure case: non-trivial when the failed block is not the first of its batch for some variant
 		nt := false
@@ -257,6 +260,29 @@ func TestC05(t *testing.T) {
 	r.Rapid(t, "variants", 2200, 50000, func(t *rapid.T) {
 		c := drawC05(t, 8192)
 		if o := c05Eval(r, c); o.msg != "" {
+			r.Violation(t, "decode-order", c, "%s", o.msg)
+		}
+	})
+	// Parallelism INSIDE a block: the inverse BWT of a block above 4 MiB is spread over helper goroutines when the
+	// block task owns several jobs, i.e. when the header carries the original size (block count known) and the
+	// reader has more jobs than there are blocks. The 8 chunks are split unevenly for 3, 5, 6 and 7 jobs.
+	r.Rapid(t, "jobs-inside-a-block", 16, 240, func(t *rapid.T) {
+		var c C05Case
+		c.Cfg = gen.Config{Transform: rapid.SampledFrom([]string{"BWT", "BWT", "TEXT+BWT", "BWT+RANK+ZRLT", "LZP+BWT"}).Draw(t, "chain"),
+			Entropy: rapid.SampledFrom([]string{"NONE", "NONE", "ANS0", "HUFFMAN"}).Draw(t, "entropy"), BlockSize: 8 << 20, Jobs: uint(rapid.IntRange(1, 4).Draw(t, "wjobs")),
+			Checksum: rapid.SampledFrom([]uint{0, 32, 64}).Draw(t, "ck")}
+		ln := 4<<20 + rapid.OneOf(rapid.IntRange(1, 64), rapid.IntRange(1, 1<<20)).Draw(t, "len")
+		if rapid.IntRange(0, 5).Draw(t, "two") == 0 {
+			ln += 8 << 20 // two blocks, both above 4 MiB
+		}
+		c.Data = gen.Recipe{Kind: rapid.SampledFrom([]int{gen.KText, gen.KXML, gen.KDNA, gen.KRepeat}).Draw(t, "kind"), Len: ln, Seed: rapid.Uint64Range(0, 1000).Draw(t, "seed")}
+		c.Cfg.Hint, c.Cfg.HintClass = int64(ln), "exact"
+		for _, j := range rapid.Permutation([]uint{2, 3, 4, 5, 6, 7, 8, 16}).Draw(t, "jobs")[:3] {
+			c.Variants = append(c.Variants, C05Variant{Jobs: j})
+		}
+		o := c05Eval(r, c)
+		r.Label("jobs-inside-a-block")
+		if o.msg != "" {
 			r.Violation(t, "decode-order", c, "%s", o.msg)
 		}
 	})
